@@ -133,6 +133,8 @@ impl Git {
             envs.push(("HOME", "/does/not/exist"));
             envs.push(("GIT_CONFIG_NOSYSTEM", "1"));
         }
+        #[cfg(gothenburgbitfactory_taskchampion_verif)]
+        crate::server::verif::failpoint(&format!("git:before:{}", args[0]))?;
         let output = Command::new(&self.path)
             .envs(envs)
             .args(args)
@@ -146,6 +148,8 @@ impl Git {
         if !stderr.is_empty() {
             log::debug!("git {}: stderr: {}", args.join(" "), stderr.trim_end());
         }
+        #[cfg(gothenburgbitfactory_taskchampion_verif)]
+        crate::server::verif::failpoint(&format!("git:after:{}", args[0]))?;
         Ok(output.status.success())
     }
 
@@ -656,8 +660,12 @@ impl Server for GitSyncServer {
             history_segment,
         };
         let version_path = self.add_version_by_parent_version_id(&version)?;
+        #[cfg(gothenburgbitfactory_taskchampion_verif)]
+        crate::server::verif::failpoint("git:add_version:after_write_version")?;
         self.meta.latest_version = version_id;
         let meta_path = self.write_meta()?;
+        #[cfg(gothenburgbitfactory_taskchampion_verif)]
+        crate::server::verif::failpoint("git:add_version:after_write_meta")?;
 
         // Commit and push, reverting if push fails.
         self.git.stage_and_commit(
@@ -723,6 +731,8 @@ impl Server for GitSyncServer {
         let snapshot_path = self.local_path.join("snapshot");
         let f = File::create(&snapshot_path)?;
         serde_json::to_writer(f, &snapshot_file)?;
+        #[cfg(gothenburgbitfactory_taskchampion_verif)]
+        crate::server::verif::failpoint("git:add_snapshot:after_write_snapshot")?;
 
         // Commit and push, reverting if push fails.
         self.git
